@@ -1,6 +1,7 @@
 CONSTANT SubmeshStep = 48
 CONSTANT AnimBoneRule = "table"
 CONSTANT RelocAdvanceAlways = FALSE
+CONSTANT CollectSkipRule = "all-empty"
 CONSTANT SaveTruncates = TRUE
 CONSTANT ViewBatchBytes = 24
 INIT Init
